@@ -16,6 +16,8 @@
 (* Expressions (JSON records, field t):                                               *)
 (*   c(v) l(n) b(n) g(n) if(a,b,c) do(xs) let(bs,xs) loop(bs,xs) recur(args)          *)
 (*   fn(self,ps,xs) call(f,args) vec(xs) letfn(fs,xs) try(xs,cs,fin) throw(e)         *)
+(*   mfn(self,ars) with ars[i] = [ps, rest ("" = none), xs]: several arities, at most  *)
+(*   one of them variadic                                                             *)
 (*   mkexc(c) def(n,e) callall(e) obj field(e,n) mcall(e,n,args)                      *)
 (* Values (field ty): nil bool(i) int(i) kw(n) vec(xs) bi(n) clo(..) exc(c) var(n)    *)
 (*                                                                                    *)
@@ -67,6 +69,23 @@ MkClo(e, en, s) ==
            c == [ty |-> "clo", ps |-> e.ps, xs |-> e.xs, env |-> en2]
        IN [clo |-> c, store |-> Append(s, c)]
 
+(* ---- functions of several arities ---------------------------------------------------- *)
+(* The arity whose fixed parameter count equals the number of arguments runs; failing that, the   *)
+(* variadic arity if it has at most that many fixed parameters; failing that the call is an arity *)
+(* error and NO body code runs.  Surplus arguments reach the rest parameter as a sequence in      *)
+(* order, nil when there are none.  recur re-enters the RUNNING arity: its last argument becomes  *)
+(* the rest parameter as given.                                                                   *)
+AllPs(a) == IF a.rest = "" THEN a.ps ELSE Append(a.ps, a.rest)
+SelArity(ars, n) ==
+  LET fx == {i \in 1..Len(ars) : ars[i].rest = "" /\ Len(ars[i].ps) = n}
+      vr == {i \in 1..Len(ars) : ars[i].rest # "" /\ Len(ars[i].ps) <= n}
+  IN IF fx # {} THEN CHOOSE i \in fx : TRUE ELSE IF vr # {} THEN CHOOSE i \in vr : TRUE ELSE 0
+MkMClo(e, en, s) ==
+  IF e.self = "" THEN [clo |-> [ty |-> "mclo", ars |-> e.ars, env |-> en], store |-> s]
+  ELSE LET a == Len(s) + 1
+           c == [ty |-> "mclo", ars |-> e.ars, env |-> Append(en, <<e.self, a>>)]
+       IN [clo |-> c, store |-> Append(s, c)]
+
 (* ---- application ------------------------------------------------------------------- *)
 ApplyPrim(n, args, k) ==
   LET r == Prim(n, args) IN
@@ -79,6 +98,13 @@ Apply(f, args, k) ==
          IF Len(args) # Len(f.ps) THEN Thr(ExcV("TypeError"), k)          \* arity error, before any body code
          ELSE LET b == Bind(f.env, store, f.ps, args)
               IN EvBody(f.xs, b.env, Push([k |-> "fn", clo |-> f], k), b.store)
+    [] f.ty = "mclo" ->
+         LET i == SelArity(f.ars, Len(args)) IN
+           IF i = 0 THEN Thr(ArityError(Len(f.ars)), k)                    \* before any body code
+           ELSE LET a == f.ars[i]
+                    c == [ty |-> "clo", ps |-> AllPs(a), xs |-> a.xs, env |-> f.env]
+                    b == Bind(f.env, store, c.ps, PackArgs(Len(a.ps), a.rest # "", args))
+                IN EvBody(a.xs, b.env, Push([k |-> "fn", clo |-> c], k), b.store)
     [] OTHER -> Thr(ExcV("TypeError"), k)                                 \* not callable
 
 (* ---- recur: all new values are computed first, then all locals are rebound at once --- *)
@@ -110,6 +136,7 @@ StepEv ==
                                          xs |-> e.xs, env |-> env, base |-> env,
                                          names |-> <<e.bs[1].n>>, vals |-> <<>>], kont))
     [] e.t = "fn" -> LET c == MkClo(e, env, store) IN Go("rt", c.clo, env, kont, c.store, glob, log)
+    [] e.t = "mfn" -> LET c == MkMClo(e, env, store) IN Go("rt", c.clo, env, kont, c.store, glob, log)
     [] e.t = "call" -> Ev(e.f, env, Push([k |-> "arg", done |-> <<>>, todo |-> e.args, env |-> env], kont))
     [] e.t = "vec" -> IF e.xs = <<>> THEN Ret(VecV(<<>>), kont)
                       ELSE Ev(e.xs[1], env, Push([k |-> "vec", done |-> <<>>, todo |-> Tail(e.xs), env |-> env], kont))
